@@ -63,6 +63,11 @@ def check_case(spec, recs, mode, cuts, rep="rec"):
     n = len(recs)
     recs = [norm_rec(r) for r in recs]
     bounds = [0] + list(cuts) + [n]
+    if rep == "df":
+        # the library reads a pandas.DataFrame only through string expressions (they see its columns as arrays)
+        from .c11 import with_qk
+
+        spec = with_qk(spec, "str")
     hn = S.build(spec)
     hr = S.build(spec)
     for lo, hi in zip(bounds[:-1], bounds[1:]):
@@ -146,7 +151,8 @@ def plan(spec, tier):
     if tier == "quick":
         return {"cap": 5 if d <= 2 else 4, "n": 2, "pieces": 2, "full1": True, "reps": ["rec"]}
     if d <= 2:
-        return {"cap": 5, "n": 3, "pieces": 3, "full1": True, "reps": ["rec", "df"]}
+        reps = ["rec", "dict"] + (["df"] if "v" not in S.fields(spec) else [])
+        return {"cap": 5, "n": 3, "pieces": 3, "full1": True, "reps": reps}
     return {"cap": 5, "n": 2, "pieces": 3, "full1": True, "reps": ["rec"]}
 
 
@@ -241,7 +247,7 @@ def _tree(task):
                 acc.n("transitions", 8)
     # (2) every batch of length 0..n over the capped alphabet x weight mode x split
     for rep in P["reps"]:
-        for n in range(0, P["n"] + 1):
+        for n in range(0, (P["n"] if rep == "rec" else min(P["n"], 2)) + 1):
             ms = modes_for(n, tier)
             cs = cuts_for(n, P["pieces"])
             for combo in itertools.product(range(len(recs)), repeat=n):
